@@ -65,8 +65,14 @@ func runC11(c *Ctx) {
 		signers := make([]cose.Signer, n)
 		for j, k := range ks {
 			msg.Signatures = append(msg.Signatures, &cose.Signature{Headers: c01headers(r, k.Alg, 0, 2, 0)})
-			// make every signer's protected header distinct, so Sig_structures differ even with equal keys
-			msg.Signatures[j].Headers.Protected[int64(91000+j)] = int64(j)
+			// make every signer's protected header distinct, so Sig_structures differ even with equal keys -
+			// except in every fourth repetition, where all slots carry byte-identical protected headers
+			// (then all signers of one algorithm sign the very same ToBeSigned)
+			if rep%4 == 3 {
+				msg.Signatures[j].Headers = cose.Headers{Protected: cose.ProtectedHeader{int64(1): k.Alg, int64(4): []byte("same")}, Unprotected: cose.UnprotectedHeader{}}
+			} else {
+				msg.Signatures[j].Headers.Protected[int64(91000+j)] = int64(j)
+			}
 			signers[j] = k.Signer
 		}
 		in := map[string]any{"n": n, "rep": rep, "external": ext}
@@ -266,6 +272,52 @@ func runC11(c *Ctx) {
 			rec.Class(fmt.Sprintf("n=%d/spy-refuses-at=%d", n, bad))
 			if e == nil {
 				rec.Violate("all-or-nothing", fmt.Sprintf("n=%d/bad=%d", n, bad), "Verify returned nil although the verifier at this position refused", in)
+			}
+		}
+		// a verifier that crashes at each position: the panic reaches the caller or becomes an error,
+		// it is never turned into success
+		for bad := 0; bad < n; bad++ {
+			vs2 := make([]cose.Verifier, n)
+			for j := range vs2 {
+				sv := &mon.SpyVerifier{Alg: ks[j].Alg, Index: j}
+				if j == bad {
+					sv.Panic = "verifier backend crashed"
+				}
+				vs2[j] = sv
+			}
+			var e error
+			panicked, _, _ := mon.Try(func() { e = msg.Verify(ext, vs2...) })
+			rec.Eval(1)
+			rec.Class(fmt.Sprintf("n=%d/spy-panics-at=%d/propagated=%v", n, bad, panicked))
+			if !panicked && e == nil {
+				rec.Violate("all-or-nothing", fmt.Sprintf("n=%d/panic-at=%d", n, bad), "Verify returned nil although the verifier at this position panicked", in)
+			}
+		}
+		// a nil slot at signing time: Sign fails, or it really fills every slot
+		for bad := 0; bad < n; bad++ {
+			m3 := &cose.SignMessage{Headers: msg.Headers, Payload: payload}
+			ss := make([]cose.Signer, n)
+			for j, s := range msg.Signatures {
+				if j == bad {
+					m3.Signatures = append(m3.Signatures, nil)
+				} else {
+					m3.Signatures = append(m3.Signatures, &cose.Signature{Headers: s.Headers})
+				}
+				ss[j] = ks[j].Signer
+			}
+			var e error
+			if guard(rec, "SignMessage.Sign(nil slot)", in, func() { e = m3.Sign(gen.Entropy, ext, ss...) }) {
+				return
+			}
+			rec.Eval(1)
+			rec.Class(fmt.Sprintf("n=%d/nil-slot-at=%d/sign-ok=%v", n, bad, e == nil))
+			if e == nil {
+				for j, s := range m3.Signatures {
+					if s == nil || len(s.Signature) == 0 {
+						rec.Violate("sign-slot-empty", fmt.Sprintf("n=%d/nil-slot=%d", n, bad), fmt.Sprintf("Sign returned nil although slot %d is nil or unsigned", j), in)
+						break
+					}
+				}
 			}
 		}
 		// a failing signer at each position: error reported, and Sign never claims success with an empty slot
